@@ -1,5 +1,6 @@
 import Gws.Basic
 import Gws.Spec.Utf8
+import Gws.Model.Nego
 /-!
 # Go semantics used by the generated translation (`Gws/Generated/Trans.lean`)
 
@@ -20,6 +21,12 @@ Hand-written and trusted as the reading of the Go language / standard library fo
   `internal.Split(·, ",")` and `ComputeAcceptKey` are the functions of the same name in `Gws/Model/Handshake.lean`
   (`Hs.get`, `Hs.vals`, `Hs.foldEq`, `Hs.joinComma`, `Hs.split`, `Hs.acceptKey`): their reading of net/http and
   `strings` is trusted and sampled by the handshake suites; the generated file imports that module for them;
+* in the three targets of the extension negotiation (`permessageNegotiation`, `genRequestHeader`, `genResponseHeader`) a Go
+  `string` is `Nego.Str` (one `Char` per byte) and a `[]string` a `List Nego.Str`: constants are `"…".toList`, `+` is `++`,
+  `==` is list equality, `xs[i]` for a constant `i` is `xs.getD i []`; `internal.Split(·, ";")`, `strings.SplitN(·, "=", 2)`,
+  `strconv.Atoi` (error dropped), `strconv.Itoa`, `strings.Join` are `Nego.split`, `goSplitN2` (the list view of
+  `Nego.splitN2`), `Nego.atoi`, `Nego.itoa`, `Nego.join` of `Gws/Model/Nego.lean`: their reading of `strings` / `strconv` is
+  trusted and compared with the real functions by the negotiation suite's differential test;
 * `error` is `Option GoErr`: `nil`, a close status code, or an I/O error of the byte source.
 -/
 
@@ -76,3 +83,10 @@ def goMaskXOR (b key : List UInt8) : List UInt8 := b.mapIdx (fun i x => x ^^^ ke
 delivered and consumed, or the call fails -/
 def goReadN (r : List UInt8) (n : Nat) : Option (List UInt8 × List UInt8) :=
   if r.length < n then none else some (r.take n, r.drop n)
+
+/-- `strings.SplitN(s, "=", 2)` as the slice it returns: one element when there is no `=`, otherwise the part before the first
+`=` and the rest (`Nego.splitN2` is the same function with the optional second part as an `Option`) -/
+def goSplitN2 (s : Nego.Str) : List Nego.Str :=
+  match Nego.splitN2 s with
+  | (a, none) => [a]
+  | (a, some b) => [a, b]
